@@ -3,6 +3,95 @@
 import json, os
 ROOT = os.path.dirname(os.path.dirname(os.path.abspath(__file__)))
 CHECKS = {
+ 'C03': dict(
+    text='Bounded symbolic execution of real unify and query generators that are ended in a symbolic way at a symbolic point: run to exhaustion, '
+         'close(), dropped, consumer throw(), or a user-supplied Python predicate raising at its j-th invocation, after k<=3 answers; 15 compiled '
+         'skeletons (joins, repeated head variables, lists, =/\\=, cut, if-then-else, \\+, once, findall, user predicate) over symbolic facts and '
+         'query modes. On every path: answers are the expected prefix, EVERY engine Variable created during the run (YLDPROLOG_VERIF hook registry) '
+         'is unbound afterwards, the injected exception object escapes unchanged, and a re-run on the same engine/variables gives the reference answers.',
+    note='Generators are finalised by CPython reference counting (executed, not modelled); cyclic GC outside; bounded skeleton family, facts<=2, k<=3.',
+    tech='symbolic execution with symbolic abandonment/fault points (CrossHair+z3) + variable registry hook', ref='2 C03'),
+ 'C04': dict(
+    text='Bounded symbolic execution of ONE arbitrary operation (load with symbolic overwrite, assert, retract, retractall, register, clear, atom creation, '
+         'start/step/abandon a query) on engine A while engine B - in an arbitrary small state chosen by symbolic codes, with a query suspended after a symbolic '
+         'number of answers - is observed: B\'s battery, the continuation of its suspended query and its atoms are unchanged; symbolic schedules (<=6 steps) of '
+         'next() over suspended queries on one or two engines give each query the answers it has alone; on every path the mutable object graphs of the two '
+         'instances are disjoint and the engine module holds no module/class-level container (sufficient condition for the thread part).',
+    note='Pre-emptive OS-thread schedules are outside the solver\'s reach: only the sufficient condition (disjoint heaps, no module-level state) is established.',
+    tech='symbolic execution of one-step non-interference and generator schedules (CrossHair+z3) + heap-disjointness monitor', ref='2 C04'),
+ 'C08': dict(
+    text='Bounded symbolic execution of histories of 3 (thorough 4) operations - load of pool scripts with symbolic overwrite (incl. a load that raises), '
+         'register_function with inferred/explicit 0,1,2/variadic arity (also explicit arity on a *args function), assert, clear - with a battery of queries '
+         'after every step compared with a list-of-definitions model (facts first, exact arity in load order each with its own cut, variadic only if none, '
+         'failing load = no change, late binding). Plus direct SMT (z3 bounded + cvc5 unbounded) on the key expressions read from engine.py\'s AST: no two '
+         'name/arity pairs share a key, fixed keys never equal variadic keys, no callable name reaches an API entry.',
+    note='Bounded history length and script pool; SMT: arity rendered in canonical decimal; z3 length bound 12, cvc5 unbounded.',
+    tech='symbolic execution of load/register histories (CrossHair+z3) vs definitions model; SMT (z3+cvc5) on key strings', ref='2 C08'),
+ 'C09': dict(
+    text='Bounded symbolic execution of call/N, once/1, findall/3 through YP.query on goals over dynamic predicates (0..2 facts, symbolic integer columns): builtin, '
+         'target, goal form (inline / held in a variable bound at run time / trailing arguments moved into call/N extras), argument modes and template symbolic; '
+         'the same shapes as compiled Prolog skeletons; = and \\= on decoded term pairs; all compared with the reference interpreter / unifier.',
+    note='Bounded fact counts and term shapes; goals are callable terms.',
+    tech='symbolic execution of the meta-call builtins (CrossHair+z3) vs reference interpreter', ref='2 C09'),
+ 'C10': dict(
+    text='The ANTLR runtime cannot be executed symbolically, so the property is decided at the compiler DRIVER: CrossHair executes _compile_prolog_from_stream / '
+         'compile_prolog_from_string against a front-end stub that reports a symbolic number of lexer and parser syntax errors (symbolic line, column, message) to the '
+         'listeners the driver installed and leaves a next token that is EOF or not; the driver must raise iff anything was reported or input is left, else return the '
+         'code of the whole tree. Counterexamples are replayed end-to-end with witness texts. The stub contract and end-to-end behaviour are validated natively: a '
+         'longest-match lexer and an Earley recogniser derived from prolog.g4 (independent of ANTLR) decide sentencehood of the repository samples, a generated '
+         'corpus and all their single-token edits; every non-sentence must be rejected and every accepted text must define exactly its clause heads.',
+    note='Solver claim is about the driver under the stub contract; the accepted language of the generated parser is validated (corpus + single edits), not proved.',
+    tech='symbolic execution of the compiler driver against a contract-stubbed front end (CrossHair+z3); grammar-derived recogniser for validation', ref='2 C10'),
+ 'C11': dict(
+    text='CrossHair executes the visitor/generator units on SYMBOLIC token text: NUMERAL lexemes -> emitted Python decimal literal of equal value; VARIABLE lexemes -> '
+         'emitted name is an identifier, not reserved (keywords, __debug__, engine-context names, generator names) and the mapping is injective; clause-head names -> '
+         'CompilerError or an exact def header with an ASCII identifier. Program shapes (<=4 clauses, names x arities) and sizes (conjunction length 1..25, if-then-else '
+         'nesting, term/list nesting around Python\'s limits, dead bodies) are enumerated through the solver and checked with CPython compile() and the engine loader: '
+         'accepted => loads and defines exactly one generator function per clause-head key.',
+    note='Lexeme length bounds (<=4 quick); module-level string sets are wrapped in a ==-chain set so symbolic strings are not hashed; size/shape obligations are solver-enumerated.',
+    tech='symbolic execution of lexeme-to-Python-token emitters (CrossHair+z3); solver-enumerated sizes checked by CPython compile()', ref='2 C11'),
+ 'C12': dict(
+    text='CrossHair executes compile_program on clause ASTs whose goal name, atom text and functor name are symbolic strings (8 body shapes reaching every rewrite case) '
+         'and checks slot discipline: nothing derived from the source text may sit in an unquoted slot of the code tree (variable/function names, called function, labels, '
+         'raw values); the quoting slot (repr) is checked against ast.literal_eval over a finite alphabet of class representatives; SMT decides that no callable name\'s '
+         'key is an API entry; a hostile corpus (quotes, newlines, Python syntax, dunder names in 7 syntactic positions; variables named like context names) is compiled, '
+         'AST-whitelisted, loaded and queried natively.',
+    note='repr route exhaustive only over the listed alphabet (length<=2); hostile compiled Python handed to load_script_* is outside.',
+    tech='symbolic execution of the compiler with symbolic names + code-tree slot discipline (CrossHair+z3); SMT on keys; AST whitelist validation', ref='2 C12'),
+ 'C16': dict(
+    text='CrossHair confirms unquoteString(quote(t)) == t for fully symbolic backslash-free text (len<=4, any Unicode); z3 decides from the STRING rule of prolog.g4 that '
+         'every quoted form is a STRING lexeme and longest-match lexing consumes exactly it (unbounded); compiled literal facts (nested compounds, lists, [H|T], [], _, '
+         'quoted atoms with quotes/newlines/non-ASCII) are matched against API-built terms with symbolic integer leaves and binding modes vs the reference unifier; '
+         'to_python on decoded terms vs the reference mapping; atom interning and cross-engine unification with symbolic names.',
+    note='Backslashes in atoms excluded by the statement; improper lists unspecified; literal family listed in evidence.',
+    tech='symbolic execution of unquoting/to_python/literal matching (CrossHair+z3); z3 regular-expression reasoning on the grammar', ref='2 C16'),
+ 'C17': dict(
+    text='CrossHair executes YP.evaluate_bounded with engine.sys stubbed: old and requested limit, number of answers, the index and kind of exception raised by the source '
+         '(RecursionError/RuntimeError/private) and by the projection function symbolic: limit restored in every case, no RecursionError escapes, result is the prefix of '
+         'projections, the suspended source is closed. On 6 compiled skeletons a user predicate raises RecursionError at a symbolic invocation and the projection at a '
+         'symbolic answer: result is a prefix of the reference answers and every Variable created is unbound. Real low limits are validated natively.',
+    note='The limit striking is modelled as RecursionError at a predicate invocation; strikes inside engine internals are outside the model.',
+    tech='symbolic execution with stubbed interpreter limit and symbolic fault points (CrossHair+z3)', ref='2 C17'),
+ 'C18': dict(
+    text='CrossHair executes the compiler back end on a clause pool while set/frozenset in the compiler modules are NondetSet (iteration order = permutation chosen by '
+         'symbolic ints) and hash/id return symbolic ints: output must equal the identity-order output on every path; compiling P after any Q of the pool equals compiling '
+         'P alone and leaves module-level containers unchanged; natively the pool and repository samples are compiled in subprocesses under different PYTHONHASHSEED.',
+    note='Set displays/comprehensions are invisible to the name-level stub and are covered only by the native hash-seed run; ANTLR caches validated, not modelled.',
+    tech='symbolic execution with nondeterministic set-order/hash stubs (CrossHair+z3); hash-seed subprocess replay', ref='2 C18'),
+ 'C19': dict(
+    text='CrossHair executes the debug writers (compiler._debug, visitor._debug and constructor, generator header) on symbolic message parts and file name (<=3 chars, any '
+         'Unicode): everything written is made of comment lines (no CR, no NUL, every line break followed by #); the 16 debug-flag combinations over a program pool leave '
+         'the non-comment part unchanged and loadable; a native CLI matrix (CliRunner + subprocess) compares yldpc with the library for files/stdin, stdout/-o, one or two '
+         'sources, failing sources, non-ASCII stdin.',
+    note='Process-level behaviour (exit status, click parsing, byte decoding) is validated natively, not a solver claim.',
+    tech='symbolic execution of debug writers on symbolic text (CrossHair+z3); enumerated flag/CLI matrix', ref='2 C19'),
+ 'C20': dict(
+    text='CrossHair executes the same symbolic query on two engines - all fact predicates compiled vs a symbolic subset of {p, q} registered as Python generators with '
+         'symbolic registration style (inferred/explicit/variadic) and a symbolic value for EVERY yield - over 9 caller skeletons (conjunction, cut before/after, '
+         'if-then-else, negation, call/once/findall, disjunction, next to a dynamic fact): answer sequences equal on every path; with an exception injected at a symbolic '
+         'invocation the same exception object reaches the consumer.',
+    note='Fixed fact tables; caller family listed; query modes 0..2 in quick.',
+    tech='differential symbolic execution (CrossHair+z3): compiled vs Python predicates with symbolic yields', ref='2 C20'),
  'C07': dict(
     text='Bounded symbolic execution of the real database operations (assert_fact, asserta/assertz/retract/retractall builtins, clear, '
          'query) as ONE step from an ARBITRARY state: p/1, q/2, f/0 filled with 0..2 (thorough 0..3) facts with symbolic integer arguments; '
